@@ -27,12 +27,12 @@ func VerifDir() string {
 
 // Obligation is one rule instance decided on this run.
 type Obligation struct {
-	Rule   string `json:"rule"`
-	Key    string `json:"key"`              // stable instance key (no line numbers)
-	Status string `json:"status"`           // ok | violated | known | info
-	Where  string `json:"where,omitempty"`  // file:line (diagnostic only)
-	Detail string `json:"detail,omitempty"` // what was matched / what fails
-	Path   []string `json:"path,omitempty"` // steps (for path rules)
+	Rule   string   `json:"rule"`
+	Key    string   `json:"key"`              // stable instance key (no line numbers)
+	Status string   `json:"status"`           // ok | violated | known | info
+	Where  string   `json:"where,omitempty"`  // file:line (diagnostic only)
+	Detail string   `json:"detail,omitempty"` // what was matched / what fails
+	Path   []string `json:"path,omitempty"`   // steps (for path rules)
 }
 
 type KnownFinding struct {
@@ -55,26 +55,26 @@ type KnownFile struct {
 }
 
 type Run struct {
-	Prop     string
-	Tier     string
-	Seed     int64
-	Start    time.Time
-	Obs      []Obligation
-	Analysed map[string]int // free-form counters: packages, functions, call sites, ...
-	Rules    map[string]string
-	Assume   []string
-	Explain  string
-	NotCov   string
-	Exhaust  map[string]bool // rules that enumerated a finite space completely
+	Prop      string
+	Tier      string
+	Seed      int64
+	Start     time.Time
+	Obs       []Obligation
+	Analysed  map[string]int // free-form counters: packages, functions, call sites, ...
+	Rules     map[string]string
+	Assume    []string
+	Explain   string
+	NotCov    string
+	Exhaust   map[string]bool // rules that enumerated a finite space completely
 	undecided []string
-	Variants []VariantResult
+	Variants  []VariantResult
 }
 
 type VariantResult struct {
-	Name     string `json:"name"`
-	Rule     string `json:"rule"`
-	Status   string `json:"status"` // detected | MISSED | not-applicable
-	Detail   string `json:"detail,omitempty"`
+	Name   string `json:"name"`
+	Rule   string `json:"rule"`
+	Status string `json:"status"` // detected | MISSED | not-applicable
+	Detail string `json:"detail,omitempty"`
 }
 
 func NewRun(prop, tier string) *Run {
